@@ -104,14 +104,20 @@ func (g *tg) leaf(x string) string {
 	return "(" + def + " " + name + ")"
 }
 
+// constant pipes: a literal piped straight into another literal, a variable, a
+// constant array or a constant object (the peephole pass rewrites exactly
+// these instruction pairs; a slot left behind shows only in a loop that runs
+// without backtracking).
+var constPipes = []string{"1", "null", "\"a\" | 2", "0 | [1, 2]", "\"k\" | {a: 1}", "1 | 2 | 3", "[1] | {}", "true | false | null", "{a: 1} | [1, 2] | 0", "null | \"s\""}
+
 func condList(shape int) []string {
 	switch shape {
 	case 0:
-		return []string{". < %M%", "%M% > .", "(. >= %M%) | not", ". < %M% and true", "[., %M%] | .[0] < .[1]", "(. - %M%) < 0", ". < %M% or false"}
+		return []string{". < %M%", "%M% > .", "(. >= %M%) | not", ". < %M% and true", "[., %M%] | .[0] < .[1]", "(. - %M%) < 0", ". < %M% or false", ". as $s | null | $s | . < %M%", ". as $s | 1 | 2 | $s < %M%", ". as $s | 0 | [1, 2] | $s | . < %M%"}
 	case 1:
-		return []string{".[0] < %M%", "first < %M%", "(.[0] >= %M%) | not", "%M% > .[0]", ". as [$i] | $i < %M%"}
+		return []string{".[0] < %M%", "first < %M%", "(.[0] >= %M%) | not", "%M% > .[0]", ". as [$i] | $i < %M%", ". as $s | null | $s | .[0] < %M%", ". as [$i] | 0 | {a: 1} | $i < %M%"}
 	}
-	return []string{".i < %M%", ".[\"i\"] < %M%", "(.i >= %M%) | not", "%M% > .i", ". as {$i} | $i < %M%"}
+	return []string{".i < %M%", ".[\"i\"] < %M%", "(.i >= %M%) | not", "%M% > .i", ". as {$i} | $i < %M%", ". as $s | \"a\" | $s | .i < %M%", ". as {$i} | 1 | 2 | $i < %M%"}
 }
 
 func (g *tg) cond() string {
@@ -147,25 +153,32 @@ func (g *tg) parity() string {
 func stepList(shape int) []string {
 	switch shape {
 	case 0:
-		return []string{". + 1", "1 + .", ". - -1", "[., 1] | add", ". as $q | $q + 1", "[.] | .[0] + 1", "{a: .} | .a + 1", "reduce 1 as $d (.; . + $d)", "[., .] | .[0] + 1", ". + 1 | . + 0"}
+		return []string{". + 1", "1 + .", ". - -1", "[., 1] | add", ". as $q | $q + 1", "[.] | .[0] + 1", "{a: .} | .a + 1", "reduce 1 as $d (.; . + $d)", "[., .] | .[0] + 1", ". + 1 | . + 0", ". as $s | 1 | $s + 1", ". as $s | null | 2 | $s + 1", ". as $s | \"a\" | [1, 2] | $s + 1", ". as $s | 0 | {a: 1} | $s + 1", ". as $s | 1 | $s | . + 1"}
 	case 1:
-		return []string{"[.[0] + 1, (.[1] + .[0]) % 1000]", ".[0] += 1", ".[0] |= . + 1", "[.[0] + 1, .[1]]", "setpath([0]; .[0] + 1)", "[first + 1, last]", ". as [$i, $a] | [$i + 1, $a]", "[.[0] + 1] + .[1:]", ".[0] = .[0] + 1"}
+		return []string{"[.[0] + 1, (.[1] + .[0]) % 1000]", ".[0] += 1", ".[0] |= . + 1", "[.[0] + 1, .[1]]", "setpath([0]; .[0] + 1)", "[first + 1, last]", ". as [$i, $a] | [$i + 1, $a]", "[.[0] + 1] + .[1:]", ".[0] = .[0] + 1", ". as $s | null | $s | [.[0] + 1, .[1]]", ". as [$i, $a] | 0 | [1, 2] | [$i + 1, $a]", ". as $s | 1 | 2 | $s | .[0] += 1", ". as $s | \"a\" | {a: 1} | $s | .[0] |= . + 1"}
 	}
-	return []string{".i += 1", ".i |= . + 1", "{i: (.i + 1), a: .a}", ". + {i: (.i + 1)}", "setpath([\"i\"]; .i + 1)", ".i = .i + 1", ". as {i: $i} | .i = $i + 1", "[with_entries(if .key == \"i\" then .value += 1 else . end)] | .[0]", "{i: (.i + 1), a: ((.a + .i) % 1000)}"}
+	return []string{".i += 1", ".i |= . + 1", "{i: (.i + 1), a: .a}", ". + {i: (.i + 1)}", "setpath([\"i\"]; .i + 1)", ".i = .i + 1", ". as {i: $i} | .i = $i + 1", "[with_entries(if .key == \"i\" then .value += 1 else . end)] | .[0]", "{i: (.i + 1), a: ((.a + .i) % 1000)}", ". as $s | \"a\" | $s | .i += 1", ". as {i: $i, a: $a} | null | {a: 1} | {i: ($i + 1), a: $a}", ". as $s | 0 | [1, 2] | $s | .i |= . + 1", ". as $s | 1 | 2 | $s + {i: ($s.i + 1)}"}
 }
 
 func (g *tg) step() string {
 	xs := stepList(g.shape)
 	if g.outer {
-		xs = append(append([]string{}, xs...), []string{". + $kk", ".[0] += $kk", ".i += $kk"}[g.shape], []string{"$kk + .", "[.[0] + $kk, .[1]]", "{i: (.i + $kk), a: .a}"}[g.shape])
+		xs = append(append([]string{}, xs...), []string{". + $kk", ".[0] += $kk", ".i += $kk"}[g.shape], []string{"$kk + .", "[.[0] + $kk, .[1]]", "{i: (.i + $kk), a: .a}"}[g.shape],
+			[]string{". as $s | null | $kk | $s + $kk", ". as $s | 1 | $kk | $s | .[0] += $kk", ". as $s | \"a\" | $kk | $s | .i += $kk"}[g.shape])
 	}
 	switch g.shape {
 	case 0:
-		xs = g.withVar(xs, func(v string) []string { return []string{v + " + 1", "1 + " + v} })
+		xs = g.withVar(xs, func(v string) []string {
+			return []string{v + " + 1", "1 + " + v, "null | " + v + " | . + 1", "1 | 2 | " + v + " | . + 1"}
+		})
 	case 1:
-		xs = g.withVar(xs, func(v string) []string { return []string{v + " | .[0] += 1", "[" + v + "[0] + 1, .[1]]"} })
+		xs = g.withVar(xs, func(v string) []string {
+			return []string{v + " | .[0] += 1", "[" + v + "[0] + 1, .[1]]", "0 | " + v + " | .[0] += 1"}
+		})
 	default:
-		xs = g.withVar(xs, func(v string) []string { return []string{v + " | .i += 1", "{i: (" + v + ".i + 1), a: .a}"} })
+		xs = g.withVar(xs, func(v string) []string {
+			return []string{v + " | .i += 1", "{i: (" + v + ".i + 1), a: .a}", "\"a\" | " + v + " | .i += 1"}
+		})
 	}
 	return g.leaf(g.pick("step", xs))
 }
@@ -193,14 +206,17 @@ func (g *tg) out() string {
 		c + " | tostring", "@json", "\"\\(" + c + ")\"", c + " as $z | $z", "reduce range(3) as $i (0; . + $i)", "foreach range(2) as $i (0; . + $i)",
 		"def g: 1, 2; g", c + " | if . % 2 == 0 then \"e\" else \"o\" end", "limit(3; " + c + " | recurse(. + 1))", "[limit(2; " + c + " | while(true; . + 1))]",
 		c + " | until(. % 4 == 0; . + 1)", "nth(2; range(5))", "any(range(3); . > 1)", "all(range(3); . < 5)", "last(range(3))", ".zz?", "(.[]?, 0)", "tostream", "[tostream] | length"}
-	xs = g.withVar(xs, func(v string) []string { return []string{v, "[" + v + ", .]", v + " | tojson"} })
+	xs = append(xs, "1 | 2", "null | [1, 2]", "\"a\" | {a: 1}", ". as $s | 0 | $s")
+	xs = g.withVar(xs, func(v string) []string {
+		return []string{v, "[" + v + ", .]", v + " | tojson", "0 | " + v, "null | [1, 2] | " + v}
+	})
 	return g.leaf(g.pick("out", xs))
 }
 
 // falsy: emits only null/false (or nothing) and leaves no fork behind.
 func falsyList(shape int) []string {
 	c := ctrOf(shape)
-	return []string{"empty", "null", "false", "(null, false)", ".zz?", c + " | select(. < 0)", "first(empty)", "if true then empty else . end", "[] | .[]", ". and false", "try error(\"x\") catch empty", "(null | not | not)", "limit(0; 1)", "(empty // null)", "[] | first", "{} | .a", "reduce empty as $x (null; 1)", "isempty(1)"}
+	return []string{"1 | null", "\"a\" | false", "0 | [1, 2] | null", "{a: 1} | false", "empty", "null", "false", "(null, false)", ".zz?", c + " | select(. < 0)", "first(empty)", "if true then empty else . end", "[] | .[]", ". and false", "try error(\"x\") catch empty", "(null | not | not)", "limit(0; 1)", "(empty // null)", "[] | first", "{} | .a", "reduce empty as $x (null; 1)", "isempty(1)"}
 }
 
 func (g *tg) falsy() string {
@@ -219,6 +235,9 @@ func balancedList(shape int) []string {
 		"[fromstream(tostream)] | .[0]", "walk(.)", ". as $s | \"a,b\" | [splits(\",\")] | $s", ". as $s | [\"abc\" | sub(\"b\"; \"x\")] | $s", "[.] | add", "[., .] | min", "[.] | unique | .[0]",
 		". as $s | [range(0; 10; 3)] | length | $s", "if . then . else . end", ". as $s | [$s] | .[0]", "[.] | .[0:1] | .[0]", "[[.]] | flatten(1) | .[0]",
 		". as $s | {} | .a.b.c = 1 | $s", ". as $s | [1, [2]] | getpath([1, 0]) | $s", "([.] | tojson) as $j | $j | fromjson | .[0]"}
+	for _, cp := range constPipes {
+		xs = append(xs, ". as $s | "+cp+" | $s")
+	}
 	switch shape {
 	case 0:
 		xs = append(xs, ". + 0", ". * 1", "\"\\(.)\" | tonumber", "{a: .} | .[]", "[.] | .[]", "tostring | tonumber", "floor", ". |= .", ". += 0", "[., 0] | max", "-(-(.))")
@@ -233,7 +252,14 @@ func balancedList(shape int) []string {
 }
 
 func (g *tg) balanced() string {
-	x := g.pick("balanced", balancedList(g.shape))
+	xs := balancedList(g.shape)
+	xs = g.withVar(xs, func(v string) []string {
+		return []string{"1 | " + v, "null | 2 | " + v, "\"a\" | [1, 2] | " + v, "0 | {a: 1} | " + v}
+	})
+	if g.outer {
+		xs = append(append([]string{}, xs...), ". as $s | 1 | $kk | $s", ". as $s | $kk | 2 | $s")
+	}
+	x := g.pick("balanced", xs)
 	if x == "." {
 		return x
 	}
@@ -498,7 +524,7 @@ func (g *cg) posStep() string {
 }
 
 func (g *cg) source() string {
-	k := g.pick("source", []string{"range1", "range2", "range3", "rangeneg", "while", "whilebig", "repeat", "repeatmulti", "repeatupd", "recurse", "recurse2", "recurseif", "inputs", "nat", "def", "defvar", "defif", "whileobj", "recursearr", "rangenested"})
+	k := g.pick("source", []string{"range1", "range2", "range3", "rangeneg", "while", "whilebig", "repeat", "repeatmulti", "repeatupd", "recurse", "recurse2", "recurseif", "inputs", "nat", "def", "defvar", "defif", "whileobj", "recursearr", "rangenested", "whileconst", "recurseconst", "repeatconst", "defconst", "untilconst"})
 	g.kinds["source/"+k] = true
 	a := g.num("a")
 	switch k {
@@ -532,6 +558,16 @@ func (g *cg) source() string {
 	case "nat":
 		g.self = true
 		return "nat"
+	case "whileconst":
+		return a + " | while(true; . as $s | " + g.pick("cp", constPipes) + " | $s + " + g.posStep() + ")"
+	case "recurseconst":
+		return a + " | recurse(. as $s | " + g.pick("cp", constPipes) + " | $s + " + g.posStep() + ")"
+	case "repeatconst":
+		return g.pick("rcp", []string{"repeat(1 | 2)", "repeat(null | [1, 2])", "repeat(\"a\" | {a: 1})", "1 as $x | repeat(0 | $x)", "0 | repeat(. as $s | 1 | $s)"})
+	case "defconst":
+		return a + " | (def f: ., (. as $s | " + g.pick("cp", constPipes) + " | $s + " + g.posStep() + " | f); f)"
+	case "untilconst":
+		return "range(infinite) | until(. % 5 == 0; . as $s | " + g.pick("cp", constPipes) + " | $s + 1)"
 	case "def":
 		return a + " | (def f: ., (. + " + g.posStep() + " | f); f)"
 	case "defvar":
@@ -551,7 +587,7 @@ var streamMaps = []string{".", "[.]", "{a: .}", "tojson", ". as $x | $x", "[., 1
 	"[.] | first", "if . then . else 0 end", "reduce range(3) as $i (.; .)", "until(true; .)", "last(., .)", "limit(1; ., .)", "first(range(3))", "isempty(empty)",
 	"[limit(2; repeat(.))]", "(., .)", "range(2)", ". as [$a] ?// $a | $a", "label $l | (., break $l)", "[.] | .[0] |= .", "{a: .} | .a |= . | .a", "tojson | fromjson",
 	"[range(3)] | length", "any(., 1; . == 1)", "all(., 1; . == 1)", "nth(1; ., ., .)", "[paths]", "[..] | length", "path(.)", "getpath([])", ".a?, 1", "[.[]?]",
-	"[foreach range(3) as $i (0; . + $i)] | length", "last(range(3))", "select(true)", "select(. != 5)", "select(type != \"null\")", "(def h: .; h)", "(def h: if . == null then h else . end; h)"}
+	"[foreach range(3) as $i (0; . + $i)] | length", "last(range(3))", "select(true)", "select(. != 5)", "select(type != \"null\")", "(def h: .; h)", "(def h: if . == null then h else . end; h)", ". as $s | 1 | $s", ". as $s | null | [1, 2] | $s", "1 | 2", "\"a\" | {a: 1}"}
 
 func (g *cg) stream(depth int) string {
 	if depth <= 0 {
